@@ -95,6 +95,8 @@ type Config struct {
 	// ExpandFilter, if set, decides whether op i is tried from a node (to build focused sub-alphabets
 	// per depth, e.g. "only ops touching what the seed created").
 	ExpandFilter func(n Node, depth int, op int) bool
+	// KeepNodes: return the list of distinct states in Stats.Nodes.
+	KeepNodes bool
 }
 
 type Stats struct {
@@ -104,6 +106,7 @@ type Stats struct {
 	AuditChecked, AuditMismatch           int
 	Complete                              bool
 	PerDepth                              []int
+	Nodes                                 []Node // all distinct states (when Config.KeepNodes)
 	CloneAliasParents                     int64 // parents whose dump changed under their clones (re-run fresh)
 	CloneOnlyAlarms                       int64 // alarms on a clone not reproduced by fresh replay
 	ConfirmedFresh                        int64 // violations confirmed by fresh replay
@@ -130,6 +133,15 @@ func (c *Config) key(w *world.World) string {
 		return c.Key(w)
 	}
 	return w.Key()
+}
+
+// Ops returns the full op list (seed + path) reaching n.
+func (c *Config) Ops(n Node) []world.Op {
+	ops := append([]world.Op{}, c.Seeds[n.Seed]...)
+	for _, i := range n.Path {
+		ops = append(ops, c.Alphabet[i])
+	}
+	return ops
 }
 
 func (c *Config) HistNames(n Node, extra ...int) []string {
@@ -208,6 +220,9 @@ func Run(c *Config) Stats {
 	st.States = int64(len(frontier))
 	st.PerDepth = append(st.PerDepth, len(frontier))
 	st.Complete = true
+	if c.KeepNodes {
+		st.Nodes = append(st.Nodes, frontier...)
+	}
 
 	for depth := 1; depth <= c.MaxDepth && len(frontier) > 0; depth++ {
 		if c.Ctx.Expired() {
@@ -337,6 +352,9 @@ func Run(c *Config) Stats {
 		st.MaxDepth = depth
 		st.States += int64(len(nf))
 		st.PerDepth = append(st.PerDepth, len(nf))
+		if c.KeepNodes {
+			st.Nodes = append(st.Nodes, nf...)
+		}
 		// state invariants on new states (parallel, fresh replay)
 		if c.State != nil {
 			var nx int64 = -1
